@@ -383,6 +383,87 @@ def gen_script(rng, peers=3, depth=4, never=0.03, tail_par=False):
     return g.script(), g.stats
 
 
+def gen_par_skeleton(rng, peers=3, depth=3):
+    """Small scripts made of par and seq over infallible calls (so inside F without any xor), many of them at the
+    init peer (peer 0): a call that follows a par and needs both branches' values is forwarded with unresolved
+    arguments, which makes the par subtraces of different peers differ in size -- the shapes the par state machine
+    of the trace handler has to line up.  Meant for exhaustive exploration of delivery orders."""
+    names = [0]
+    ps = PEERS[:peers]
+
+    def call(vis, join=None):
+        names[0] += 1
+        v = "v%d" % names[0]
+        tgt = '"@%s"' % (ps[0] if rng.random() < 0.45 else rng.choice(ps))
+        fn = rng.choice(["tag", "tag", "args", "arr", "num"])
+        k = rng.choice([0, 1, 2]) if vis else 0
+        al = [rng.choice(vis) for _ in range(k)]
+        if join and rng.random() < 0.6:
+            al = list(join)[:4]            # a join: one argument from every branch of the par just before
+        lens = False
+        if al and rng.random() < 0.5:
+            # a lens on a value that another peer may not have yet: such a call is forwarded while the value is
+            # unknown and fails (no such field) once it is known; under an xor
+            al[rng.randrange(len(al))] += rng.choice([".$.length", ".$.nope", ".$.nope", ".$.[0]"])
+            lens = True
+        text = '(call %s ("s" "%s") [%s] %s)' % (tgt, fn, " ".join(al), v)
+        return ("(xor %s (null))" % text if lens else text), v
+
+    def node(vis, d, join=None):
+        """returns (text, names defined)"""
+        if d <= 0 or rng.random() < 0.2:
+            t, v = call(vis, join)
+            return t, [v]
+        if rng.random() < 0.6:
+            a, da = node(list(vis), d - 1)
+            b, db = node(list(vis), d - 1)
+            return "(par %s %s)" % (a, b), da + db
+        a, da = node(list(vis), d - 1)
+        b, db = node(vis + da, d - 1 if rng.random() < 0.5 else 0, da if a.startswith("(par") else None)
+        return "(seq %s %s)" % (a, b), da + db
+
+    t, _ = node([], depth)
+    return t, {"par skeleton": 1}
+
+
+def gen_join_template(rng, peers=3):
+    """(par (seq (par X Y) Z) W) and relatives: Z joins the values of both branches of the inner par (directly or
+    through a lens that may fail once the value is known), W is independent work, often at the init peer (peer 0).
+    While one of the values is unknown Z is forwarded with unresolved arguments; the peers' par subtraces then
+    differ in size."""
+    ps = PEERS[:peers]
+
+    def peer(init_bias):
+        return '"@%s"' % (ps[0] if rng.random() < init_bias else rng.choice(ps))
+
+    def src(v):
+        fn = rng.choice(["args", "arr", "tag", "obj", "num"])
+        return '(call %s ("s" "%s") [] %s)' % (peer(0.15), fn, v)
+
+    def operand(v):
+        x = rng.random()
+        if x < 0.45:
+            return v, False
+        return v + rng.choice([".$.length", ".$.nope", ".$.[0]", ".$.f"]), True
+
+    a1, l1 = operand("v1")
+    a2, l2 = operand("v2")
+    z = '(call %s ("s" "%s") [%s %s] v3)' % (peer(0.6), rng.choice(["num", "args", "tag"]), a1, a2)
+    if l1 or l2:
+        z = "(xor %s %s)" % (z, rng.choice(["(null)", '(call %s ("s" "tag") [] v4)' % peer(0.5)]))
+    left = "(seq (par %s %s) %s)" % (src("v1"), src("v2"), z)
+    if rng.random() < 0.3:
+        left = "(seq %s (call %s (\"s\" \"args\") [v1] v5))" % (left, peer(0.4))
+    w = '(call %s ("s" "tag") [] v7)' % peer(0.6)
+    if rng.random() < 0.3:
+        w = "(new v7 %s)" % w
+    elif rng.random() < 0.3:
+        w = "(seq %s (call %s (\"s\" \"args\") [v7] v8))" % (w, peer(0.4))
+    shape = rng.choice(["LW", "LW", "WL", "L", "seqLW"])
+    t = {"LW": "(par %s %s)" % (left, w), "WL": "(par %s %s)" % (w, left), "L": left, "seqLW": "(seq %s %s)" % (left, w)}[shape]
+    return t, {"join after par template": 1}
+
+
 def gen_schedule(rng, n_ops=30, dup=0.1, redeliver=0.05, batch=0.3):
     """Random schedule (same operations as lib/airgen.py): deliveries, duplicates, re-deliveries, answers to all
     or to a subset of the pending requests of a peer."""
